@@ -113,7 +113,16 @@ func shardOf(choices []int, d int) uint32 {
 		b[0], b[1], b[2], b[3] = byte(c), byte(c>>8), byte(c>>16), byte(c>>24)
 		h.Write(b[:])
 	}
-	return h.Sum32()
+	// finalise (murmur3 fmix32): the low bits of FNV-1a over small values are badly distributed, and
+	// the shard is the hash modulo the number of workers (measured: 4 of 16 workers got nearly all of a
+	// scenario's executions before this mix was added)
+	x := h.Sum32()
+	x ^= x >> 16
+	x *= 0x85ebca6b
+	x ^= x >> 13
+	x *= 0xc2b2ae35
+	x ^= x >> 16
+	return x
 }
 
 type explorer struct {
